@@ -64,7 +64,7 @@ impl ReadXml for Capabilities {
                 {
                     let span = reader.read_text(tag.to_end().name())?;
                     tracing::debug!(?span, "parsing capability");
-                    _ = inner.insert(span.parse()?);
+                    _ = inner.insert(span.trim().parse()?);
                 }
                 (_, Event::Comment(_)) => continue,
                 (_, Event::End(tag)) if tag == end => break,
